@@ -20,7 +20,9 @@ T0 = 1440938160          # 2015-08-30T12:36:00Z
 
 
 class Req:
-    def __init__(self, method='GET', path=b'/', query=None, headers=(), body=b'', body_kind='bytes', version='HTTP/1.1'):
+    def __init__(self, method='GET', path=b'/', query=None, headers=(), body=b'', body_kind='bytes', version='HTTP/1.1', authority_form=None):
+        # authority_form: the request target is an authority ("example.com:443", as with CONNECT): no path, no query
+        self.authority_form = authority_form
         self.method = method
         self.path = conc_bytes(path) if isinstance(path, (bytes, str)) else list(path)
         self.query = None if query is None else (conc_bytes(query) if isinstance(query, (bytes, str)) else list(query))
@@ -35,7 +37,8 @@ class Req:
             hm.append(n, v)
         self.ext = Opaque('Extensions', 'ext-token')
         self.hm = hm
-        parts = H.mk_parts(H.Method(self.method), H.Uri(self.path, self.query), hm, self.version, self.ext)
+        uri = H.Uri(self.path, self.query) if not self.authority_form else H.Uri([], None, self.authority_form.encode(), True)
+        parts = H.mk_parts(H.Method(self.method), uri, hm, self.version, self.ext)
         if self.body_kind == 'unit':
             body = unit()
         else:
@@ -50,6 +53,8 @@ class Req:
         uri = b(self.path).decode('latin-1')
         if self.query is not None:
             uri += '?' + b(self.query).decode('latin-1')
+        if self.authority_form:
+            uri = self.authority_form
         return {'method': self.method, 'uri': uri, 'version': self.version,
                 'headers': [[n, b(v).hex()] for n, v in self.headers], 'body_hex': b(self.body).hex(),
                 'body_kind': self.body_kind}
